@@ -5,12 +5,6 @@ From RareV Require Import Base.Hex Base.Res Gen.GenTerm Model.Trim Model.Term.
 From RareV Require Import Proofs.TrimProof Proofs.TermEmu Proofs.TermMain Proofs.TrimStore.
 Import ListNotations.
 
-Lemma overwrite_nil : forall v, overwrite [] 0 v = v.
-Proof.
-  intros v. change (@nil N) with (@nil N ++ @nil N) at 1. change 0 with (@length N []).
-  rewrite overwrite_app. cbn [app]. rewrite skipn_nil. apply app_nil_r.
-Qed.
-
 Section Buf.
 Variable tc : tcfg.
 Hypothesis Honl : onlcr tc = true.
